@@ -24,12 +24,12 @@ MAX_KEYS = 12
 def _plan(tier):
     """(cat, variant, maxtx, maxlen, mode, expand states that already diverged)"""
     if tier == "quick":
-        return [("q", "funder", 2, 4, "compact", True),
+        return [("q", "funder", 2, 4, "compact", False),
                 ("m", "funder", 2, 4, "compact", False),
                 ("m", "funder", 2, 4, "streamed", False),
                 ("h", "funder", 2, 3, "compact", False),
                 ("h", "funder", 2, 3, "streamed", False),
-                ("q", "fundee", 2, 4, "compact", True)]
+                ("q", "fundee", 2, 4, "compact", False)]
     return [("m", "funder", 2, 5, "compact", False),
             ("m", "funder", 2, 5, "streamed", False),
             ("h", "funder", 2, 5, "compact", False),
@@ -39,10 +39,10 @@ def _plan(tier):
             ("m", "funder", 3, 4, "compact", False),
             ("all", "funder", 2, 4, "compact", False),
             ("all", "funder", 2, 4, "streamed", False),
-            ("q", "funder", 2, 4, "compact", True),
-            ("q", "funder", 2, 5, "compact", True),
+            ("q", "funder", 2, 4, "compact", False),
+            ("q", "funder", 2, 5, "compact", False),
             ("m", "fundee", 2, 5, "compact", False),
-            ("q", "fundee", 2, 5, "streamed", True)]
+            ("q", "fundee", 2, 5, "streamed", False)]
 
 
 def _violation(x):
